@@ -196,6 +196,21 @@ def run_config(chk, facts, cfg):
                     chk.ob("C01-f", f"{b.path} calls {t.callee}", False, key=f"forbid|{b.path}|{t.callee}", file=b.file, line=t.line, fn=b.path,
                            detail="an observation of time / environment / randomness / thread identity / memory address alignment in a parsing path")
     chk.floor("C01-f", "calls scanned in font-types + read-fonts", ncalls, 20000 if cfg == "union" else 5000)
+    # iteration order of a RandomState-hashed container is a per-process / per-map random observation
+    from .c07 import random_hash_iterations
+    his = random_hash_iterations(facts, ("font_types", RF))
+    for b, bb, t, m, norm, sensitive in his:
+        chk.ob("C01-f", f"{b.path} line {t.line}: HashMap/HashSet::{m} -> {norm}", not sensitive, key=f"hash-iter|{b.path}|{m}",
+               file=b.file, line=t.line, fn=b.path,
+               detail=f"the iteration order of a std hash container (random per map) reaches {norm}: what is observed for the same "
+                      f"bytes can differ between calls and threads")
+    chk.stats[f"C01-f:{cfg}:hash_iteration_sites"] = len(his)
+    if cfg == "union":
+        # positive example for this zero-expected rule: the fixture crate iterates a HashMap into a result
+        fx = Facts("fixture:engine", callgraph=False)
+        fxs = [x for x in random_hash_iterations(fx, fx.crates) if x[0].path.endswith("hash_order_observed")]
+        chk.ob("C01-f", f"scanner self-check: fixture hash_order_observed flagged ({len(fxs)} site(s))", any(x[5] for x in fxs),
+               key="hash-iter|selfcheck", detail="the hash-iteration scanner no longer recognises a plain `for k in map.keys()` (checker defect)")
     from ..ptrtaint import PtrTaint
     pt = PtrTaint(facts, list(facts.crates))
     npc = 0
